@@ -72,7 +72,7 @@ var c17Targets = []c17Target{
 	{"uint8", tOf(new(uint8))}, {"uint16", tOf(new(uint16))}, {"uint32", tOf(new(uint32))}, {"uint64", tOf(new(uint64))}, {"uint", tOf(new(uint))},
 	{"float32", tOf(new(float32))}, {"float64", tOf(new(float64))}, {"string", tOf(new(string))},
 	{"[]byte", tOf(new([]byte))}, {"[3]byte", tOf(new([3]byte))}, {"[]int", tOf(new([]int))}, {"[2]int", tOf(new([2]int))}, {"[]uint8-list", tOf(new([]int8))}, {"[]string", tOf(new([]string))}, {"[]interface{}", tOf(new([]interface{}))},
-	{"map[string]int", tOf(new(map[string]int))}, {"map[string]interface{}", tOf(new(map[string]interface{}))}, {"struct{A int;B string}", tOf(new(c17Pair))},
+	{"map[string]int", tOf(new(map[string]int))}, {"map[named string]int", tOf(new(map[c06Key]int))}, {"map[string]interface{}", tOf(new(map[string]interface{}))}, {"struct{A int;B string}", tOf(new(c17Pair))},
 	{"*int", tOf(new(*int))}, {"*string", tOf(new(*string))}, {"**int", tOf(new(**int))}, {"interface{}", tOf(new(interface{}))},
 	{"Timestamp", tOf(new(ion.Timestamp))}, {"Decimal", tOf(new(ion.Decimal))}, {"*Decimal", tOf(new(*ion.Decimal))}, {"big.Int", tOf(new(big.Int))}, {"*big.Int", tOf(new(*big.Int))},
 	{"SymbolToken", tOf(new(ion.SymbolToken))}, {"time.Time", tOf(new(time.Time))},
@@ -383,7 +383,7 @@ func c17Judge(v *rm.Value, t reflect.Type) (verdict int, check func(reflect.Valu
 			return ver, func(s reflect.Value) string {
 				// the last occurrence of a repeated field may win; check membership
 				for _, kid := range v.Kids {
-					mv := s.MapIndex(reflect.ValueOf(kid.Field.Text))
+					mv := s.MapIndex(reflect.ValueOf(kid.Field.Text).Convert(s.Type().Key()))
 					if !mv.IsValid() {
 						return fmt.Sprintf("field %q missing from the map", kid.Field.Text)
 					}
@@ -787,7 +787,7 @@ func init() {
 	mc.Register(&mc.Check{
 		ID:    "C17",
 		Title: "Unmarshal either fills the target faithfully or returns an error",
-		Rule: "the full matrix of 86 Ion values (typed nulls, bools, integers at every Go width boundary ±1 up to 2^100, floats incl. beyond float32 range / inf / NaN / -0, decimals, timestamps, symbols with and without text, strings, lobs of 0/2/3/4 bytes, lists, sexps, structs incl. repeated and unknown fields, annotated values) x 38 target types (every integer width, floats, string, []byte, [3]byte, slices, arrays, maps, a struct, pointers, interface{}, Timestamp, Decimal, big.Int, SymbolToken, time.Time, annotation wrapper structs incl. the README's []string form) x {Unmarshal of binary, Unmarshal of text, UnmarshalString, Decoder.DecodeTo}; plus 11 struct-target cells with hand-written expectations (exact-then-case-insensitive field lookup, promoted fields of embedded structs three levels deep, every tag option, unknown fields) in text and binary; plus a Decoder over every stream of 0..3 values of 5 kinds followed by two extra calls; plus every matrix cell again with a target that already holds another value (scalars, slices of 5 elements, arrays, pointers, interface{}); plus one Decoder filling the same []int / []interface{} / [3]int / interface{} variable from every stream of three lists of 0..3 ints. " +
+		Rule: "the full matrix of 86 Ion values (typed nulls, bools, integers at every Go width boundary ±1 up to 2^100, floats incl. beyond float32 range / inf / NaN / -0, decimals, timestamps, symbols with and without text, strings, lobs of 0/2/3/4 bytes, lists, sexps, structs incl. repeated and unknown fields, annotated values) x 39 target types (every integer width, floats, string, []byte, [3]byte, slices, arrays, maps, a struct, pointers, interface{}, Timestamp, Decimal, big.Int, SymbolToken, time.Time, annotation wrapper structs incl. the README's []string form) x {Unmarshal of binary, Unmarshal of text, UnmarshalString, Decoder.DecodeTo}; plus 11 struct-target cells with hand-written expectations (exact-then-case-insensitive field lookup, promoted fields of embedded structs three levels deep, every tag option, unknown fields) in text and binary; plus a Decoder over every stream of 0..3 values of 5 kinds followed by two extra calls; plus every matrix cell again with a target that already holds another value (scalars, slices of 5 elements, arrays, pointers, interface{}); plus one Decoder filling the same []int / []interface{} / [3]int / interface{} variable from every stream of three lists of 0..3 ints. " +
 			"Oracle from the documented mapping table: pairs outside the table must return an error; integers that do not fit the width or sign, finite floats beyond float32, textless symbols into string must return an error; pairs inside the table must succeed and the stored value must image back to the Ion value; never a panic; exactly n values then ErrNoInput. Conversions the documentation does not mention (int->float, decimal->number, timestamp->time.Time, typed null of another type, list of ints into []byte, byte arrays of another length) are exercised for panics only. " +
 			"non-trivial = the cell was executed and judged; distinct = distinct (target, verdict, outcome) digests",
 		Bounds:      map[string]string{"quick": "the whole matrix", "thorough": "the whole matrix"},
